@@ -9,6 +9,10 @@ quiescence.  The model is run on ONE schedule (steady builder's mocks, every bui
 caller, the steady builder's reset); theorems `C11.isolation` / `C11.steady_calls` say the observation is the same
 on every schedule, which is what the concurrent implementation is compared against.
 
+`c11.shuffle <seed> <round…>` runs the model on a pseudo-random interleaving of the builder and caller threads (with
+stutter steps on held locks) between the steady builder's mocks and its reset; the check compares it with the
+sequential observation and with the implementation on every quick run.
+
 `c11.sched <same line> :: t t t ...` runs the model on an explicit micro-step schedule (thread numbers in order of
 appearance) and prints the same observation (used to replay interleavings, including stutter steps on held locks).
 
@@ -36,6 +40,7 @@ def parseRepl (k v : String) : Option Repl := do
   | "cb" => some (.cb n)
   | "cbo" => some (.cbo n)
   | "tab" => some (.tab n)
+  | "tin" => some (.tin n)
   | _ => none
 
 /-- 48 ordinary targets + 6 variadic steady targets (locations 48..53; the probe encodes the argument as a tuple) -/
@@ -51,7 +56,11 @@ def addSeg (ths : List PThread) (seg : List String) : Option (List PThread) := d
         let ns ← rest.mapM (·.toNat?)
         if ns.all (· < NT) && !ns.isEmpty then some { th with targets := th.targets ++ ns } else none
       else match rest with
-        | ["mock", f, k, v, wo] => do
+        | ["ext", f] => do
+          let fn ← f.toNat?
+          if fn < 48 then some { th with ops := th.ops ++ [.ext fn] } else none
+        | [m, f, k, v, wo] => do
+          if m != "mock" && m != "mockn" then none   -- mockn: the probe addresses the target by name; same sections
           let fn ← f.toNat?
           let r ← parseRepl k v
           let w ← wo.toNat?
@@ -65,6 +74,7 @@ def addSeg (ths : List PThread) (seg : List String) : Option (List PThread) := d
 structure Round where
   k : Nat
   threads : List PThread
+  plh : List (Nat × Nat) := []    -- `P f p`: target f uses placeholder variable p (default: its own)
 
 def parseRound (toks : List String) : Option Round := do
   match splitBar toks with
@@ -75,9 +85,17 @@ def parseRound (toks : List String) : Option Round := do
     if !(kv.all (fun p => p.1 = "y" || p.1 = "K" || p.1 = "d")) then none
     let k := ((kv.find? (·.1 = "K")).map (·.2)).getD 1
     let segs := segs.filter (fun s => s.head? != some "N")
+    let psegs := segs.filter (fun s => s.head? == some "P")
+    let segs := segs.filter (fun s => s.head? != some "P")
+    let plh ← psegs.mapM (fun s => match s with
+      | [_, f, p] => do
+        let fn ← f.toNat?
+        let pn ← p.toNat?
+        if fn < 48 && pn < 48 then some (fn, pn) else none
+      | _ => none)
     let ths ← segs.foldlM addSeg []
     if segs.any (fun s => s.length < 2) then none
-    some { k := k, threads := ths }
+    some { k := k, threads := ths, plh := plh }
   | [] => none
 
 /-- builder API → critical sections: `Conc.compileOps` (the class `Conc.builderProg` of theorem `C11.quiescent_restored_builders`
@@ -89,11 +107,21 @@ def compileC (k : Nat) (ci : Nat) (th : PThread) : List Sec :=
 
 def layout : Layout := { plh := fun f => f + 1000, pages := fun l => [l / 4], orig := fun f a => a * 7 + f }
 
+/-- layout of a round: placeholder assignment from the `P` segments -/
+def layoutOf (r : Round) : Layout :=
+  { layout with plh := fun f => match r.plh.find? (·.1 = f) with
+      | some (_, p) => p + 1000
+      | none => f + 1000 }
+
 structure Sys where
   prog : Tid → List Sec
   names : List String          -- thread i ↦ name (S-reset thread appended last)
   sReset : List Sec
 
+/-- threads of a round: the steady builder's mocks (thread 0, phase 1), builders and callers (phase 2), the steady builder's
+    reset `S'` (last thread, phase 3).  As ONE system this is not `Disjoint` (S writes what the callers call); the theorems
+    apply phase-wise: `JAt_after_solo` (phase 1), the quiet-state theorems with `prog2` = builders + callers (phase 2),
+    `steady_targets_restored` (phase 3).  The schedules the driver runs (`seqSchedule`, `shuffleSchedule`) respect the phases. -/
 def mkSys (r : Round) : Sys :=
   let callers := r.threads.filter (·.name.startsWith "C")
   let progs : List (List Sec) := r.threads.map (fun th =>
@@ -142,6 +170,26 @@ def observe (sy : Sys) (s : St) : String :=
 def seqSchedule (sy : Sys) : List Nat :=
   (List.range sy.names.length).flatMap (fun t => List.replicate (fuelOf sy t) t)
 
+/-- a pseudo-random interleaving: the steady builder's mocks (phase 1), then `n` slots drawn by an LCG among the builder
+    and caller threads — slots of a thread waiting for a held lock are stutter steps —, then every thread to completion,
+    then the steady builder's reset (phase 3).  This is the decomposition of theorem `C11.steady_targets_restored`. -/
+def shuffleSchedule (sy : Sys) (seed : Nat) : List Nat :=
+  let n := sy.names.length
+  let mids := (List.range n).filter (fun t => t != 0 ∧ t + 1 != n)
+  let first := if (sy.names.getD 0 "").startsWith "S" then [0] else []
+  let mids := if first.isEmpty then (List.range n).filter (fun t => t + 1 != n) else mids
+  let total := mids.foldl (fun a t => a + fuelOf sy t) 0
+  let rec go (k : Nat) (x : Nat) (acc : List Nat) : List Nat :=
+    match k with
+    | 0 => acc.reverse
+    | k + 1 =>
+      let x' := (x * 1103515245 + 12345) % 2147483648
+      go k x' ((mids.getD ((x' / 65536) % (max mids.length 1)) 0) :: acc)
+  first.flatMap (fun t => List.replicate (fuelOf sy t) t) ++ go (total / 2) (seed + 1) []
+    -- two completion passes: a thread that waits for the lock holder left over from the random part finishes in the second
+    ++ mids.flatMap (fun t => List.replicate (fuelOf sy t) t) ++ mids.flatMap (fun t => List.replicate (fuelOf sy t) t)
+    ++ List.replicate (fuelOf sy (n - 1)) (n - 1)
+
 /-- lock / access skeleton of the model's sections in the vocabulary of harness/c11/skel (which extracts the same
     from the Go source).  The section bodies come from `Conc.bodyOf` / `Conc.wscript`, so the strings change when the
     model changes. -/
@@ -154,9 +202,9 @@ def tokMI (inReplace : Bool) : MI → String
   | .write (.jump _) => "WriteTo"
 
 def tokW : WStep → String
-  | .protW _ => "mprotect-RWX writeTo"     -- writeTo: darwin fallback inside the error branch (mwrite_amd64.go:26)
+  | .prot _ p => (if p.w then (if p.x then "mprotect-RWX" else "mprotect-RW") else (if p.x then "mprotect-RX" else "mprotect-R"))
+      ++ (if p.w then " writeTo" else "")     -- writeTo: darwin fallback inside the error branch (mwrite_amd64.go:26)
   | .copy => "copy"
-  | .protX _ => "mprotect-RX"
 
 def joinToks (l : List String) : String := " ".intercalate (l.filter (· ≠ ""))
 
@@ -185,20 +233,26 @@ def handle (toks : List String) : Option String :=
     match parseRound toks.tail with
     | some r =>
       let sy := mkSys r
-      some (observe sy (run layout sy.prog (seqSchedule sy) (init (fun _ => .pristine))))
+      some (observe sy (run (layoutOf r) sy.prog (seqSchedule sy) (init (fun _ => .pristine))))
     | none => some "bad-op"
   | "c11.sched" :: rest =>
     let (line, sched) := rest.span (· != "::")
     match parseRound line, (sched.drop 1).mapM (·.toNat?) with
     | some r, some σ =>
       let sy := mkSys r
-      some (observe sy (run layout sy.prog σ (init (fun _ => .pristine))))
+      some (observe sy (run (layoutOf r) sy.prog σ (init (fun _ => .pristine))))
+    | _, _ => some "bad-op"
+  | "c11.shuffle" :: sd :: rest =>
+    match sd.toNat?, parseRound rest with
+    | some seed, some r =>
+      let sy := mkSys r
+      some (observe sy (run (layoutOf r) sy.prog (shuffleSchedule sy seed) (init (fun _ => .pristine))))
     | _, _ => some "bad-op"
   | "c11.writes" :: _ =>
     match parseRound toks.tail with
     | some r =>
       let sy := mkSys r
-      let s := run layout sy.prog (seqSchedule sy) (init (fun _ => .pristine))
+      let s := run (layoutOf r) sy.prog (seqSchedule sy) (init (fun _ => .pristine))
       some s!"copies={(s.acc.filter (fun a => a.v == .text && a.write)).length}"
     | none => some "bad-op"
   | ["c11.skel", name] => some ((skel name).getD "bad-op")
